@@ -165,8 +165,8 @@ def _exhaustive():
                 rows = [list(flat[i * n:(i + 1) * n]) for i in range(m)]
                 dm = _small_dm(rows)
                 for conds in csets:
-                    for ig in (False, True):
-                        cases.append({"dm": dm, "runs": [{"cls": cls, "conds": _as_cls(cls, conds), "ignore": ig} for cls in BYCRIT]})
+                    cases.append({"dm": dm, "runs": [{"cls": cls, "conds": _as_cls(cls, conds), "ignore": ig}
+                                                     for ig in (False, True) for cls in BYCRIT]})
                 for objs in itertools.product((1, -1), repeat=n):
                     cases.append({"dm": _small_dm(rows, objs), "runs": [{"cls": "NonDominated", "strict": s} for s in (False, True)]})
     return cases
@@ -421,6 +421,9 @@ def judge(case, obs, replies):
                 note = " [the implementation agrees with the pre-fix pairing arithMask_v0: columns in matrix order, thresholds in dict order]"
             if sorted(o["alts"]) == sorted(exp_alts):
                 prop("survivors are not in their original relative order" + note, exp_alts, o["alts"])
+            elif run["cls"] == "NonDominated":
+                prop("survivors are not exactly the alternatives that no other alternative %sdominates"
+                     % ("strictly " if run["strict"] else ""), exp_alts, o["alts"])
             else:
                 prop("survivors are not exactly the alternatives that satisfy every condition on the criterion it names" + note,
                      exp_alts, o["alts"])
